@@ -154,6 +154,26 @@ Theorem C19_Equal_compares_spellings :
 Proof. exact equal4_naive_false_strings. Qed.
 Print Assumptions C19_Equal_compares_spellings.
 
+(* ---- wiring of OutputFacts.v: the bytes the legacy MergePatch / MergeMergePatches return are a JSON text
+   that parses to a value equal, up to member order, to the RFC 7396 result (no hypothesis on strings) ---- *)
+From JP Require Import Scan OutputFacts.
+
+Theorem C19_MergePatch_output_bytes : forall doc patch td tp,
+  parse doc = Some td -> parse patch = Some tp -> td <> TNull -> tnodup td = true -> tnodup tp = true ->
+  scalar_text tp = false ->
+  exists out t', api_merge4 false doc patch = MOut out /\ parse out = Some t' /\
+                 jeq (den t') (merge_patch (den td) (den tp)) = true /\ valid_gen out = true.
+Proof. exact api_merge4_output_bytes. Qed.
+Print Assumptions C19_MergePatch_output_bytes.
+
+Theorem C19_MergeMergePatches_output_bytes : forall p1 p2 ms1 t2,
+  parse p1 = Some (TObj ms1) -> parse p2 = Some t2 -> tnodup (TObj ms1) = true -> tnodup t2 = true ->
+  compatible (den (TObj ms1)) (den t2) = true -> scalar_text t2 = false ->
+  exists out t', api_merge4 true p1 p2 = MOut out /\ parse out = Some t' /\
+                 jeq (den t') (mm (den (TObj ms1)) (den t2)) = true /\ valid_gen out = true.
+Proof. exact api_mergemerge4_output_bytes. Qed.
+Print Assumptions C19_MergeMergePatches_output_bytes.
+
 Example C19_nonvacuous :
   api_merge4 false (B "{""b"":{""x"":1,""y"":2},""a"":1}") (B "{""b"":{""x"":null,""z"":[null]},""c"":{""d"":null}}")
     = MOut (B "{""a"":1,""b"":{""y"":2,""z"":[null]},""c"":{}}") /\
